@@ -17,6 +17,11 @@ func FuzzVerifC15CNIConf(f *testing.F) {
 	f.Add([]byte(`{"cniVersion":"0.4.0","name":"terway","type":"terway","capabilities":{"bandwidth":true},"host_stack_cidrs":["169.254.20.10/32"],"eniip_virtual_type":"IPVlan","mtu":1500,"runtimeConfig":{"bandwidth":{"ingressRate":1000000,"egressRate":8}}}`),
 		args, "172.16.0.0/16", "10.0.0.2", "10.0.0.0/24", "10.0.0.253", "192.168.0.0/16", "00:16:3e:01:02:03", "eth0", uint8(2))
 	f.Add([]byte(`{"type":"terway","vlan_strip_type":"vlan","disable_host_peer":true}`), args, "fd01::/108", "fd00::2", "fd00::/64", "fd00::fffd", "::/0", "", "", uint8(1))
+	// IPVlan host-stack redirect: host_stack_cidrs entries incl. IPv4-mapped IPv6 notation
+	for _, hs := range g.HostStackHostile {
+		f.Add([]byte(`{"type":"terway","eniip_virtual_type":"IPVlan","host_stack_cidrs":["169.254.20.10/32","`+hs+`"]}`),
+			args, "172.16.0.0/16", "10.0.0.2", "10.0.0.0/24", "10.0.0.253", "192.168.0.0/16", "", "eth0", uint8(1))
+	}
 	for _, s := range append(g.FuzzHostile, g.CNIConfHostile...) {
 		f.Add([]byte(s), s, s, s, s, s, s, s, s, uint8(2))
 		f.Add([]byte(`{"type":"terway"}`), args, s, s, s, s, s, s, s, uint8(1))
